@@ -15,7 +15,7 @@ import common as C
 EXH = {  # exhaustive writer bounds per tier (Prefix "dtd": the behaviours that start after a fixed rich DTD)
     "quick": [
         dict(MaxTokens=4, MaxDepth=2, MaxBad=1, MaxTop=2, MaxDtd=2, MaxTrunc=2, Wide="FALSE", Prefix='"none"',
-             NStylesGood=4, NStylesBad=2, NLexStyles=6),
+             NStylesGood=3, NStylesBad=2, NLexStyles=3),
         dict(MaxTokens=14, MaxDepth=2, MaxBad=1, MaxTop=2, MaxDtd=0, MaxTrunc=0, Wide="FALSE", Prefix='"dtd"',
              NStylesGood=2, NStylesBad=1, NLexStyles=2),
     ],
@@ -29,9 +29,9 @@ EXH = {  # exhaustive writer bounds per tier (Prefix "dtd": the behaviours that 
 SIM = {  # -simulate runs: (constants, number of behaviours PER WORKER (8 workers), depth)
     "quick": [
         (dict(MaxTokens=14, MaxDepth=3, MaxBad=0, MaxTop=3, MaxDtd=4, MaxTrunc=0, Wide="TRUE",
-              Prefix='"none"', NStylesGood=3, NStylesBad=1, NLexStyles=3), 50, 16),
+              Prefix='"none"', NStylesGood=3, NStylesBad=1, NLexStyles=3), 20, 16),
         (dict(MaxTokens=12, MaxDepth=3, MaxBad=2, MaxTop=3, MaxDtd=3, MaxTrunc=6, Wide="TRUE",
-              Prefix='"none"', NStylesGood=1, NStylesBad=2, NLexStyles=2), 40, 14),
+              Prefix='"none"', NStylesGood=1, NStylesBad=2, NLexStyles=2), 15, 14),
     ],
     "thorough": [
         (dict(MaxTokens=24, MaxDepth=4, MaxBad=0, MaxTop=4, MaxDtd=6, MaxTrunc=0, Wide="TRUE",
@@ -40,7 +40,7 @@ SIM = {  # -simulate runs: (constants, number of behaviours PER WORKER (8 worker
               Prefix='"none"', NStylesGood=1, NStylesBad=3, NLexStyles=3), 800, 18),
     ],
 }
-JUDGE_FAST_CAP = {"quick": 1500, "thorough": 12000}   # fast-path events also judged by TLC
+JUDGE_FAST_CAP = {"quick": 700, "thorough": 12000}   # fast-path events also judged by TLC
 
 
 def _mc_cfg(path, consts):
@@ -51,33 +51,46 @@ def _mc_cfg(path, consts):
     C.write_cfg(path, lines)
 
 
-def mc_cases(wd, tier, out=None):
+LIGHT = [   # the C03 engine's quick tier only needs the texts: small bounds, no scanner invariant
+    dict(MaxTokens=3, MaxDepth=2, MaxBad=1, MaxTop=2, MaxDtd=2, MaxTrunc=2, Wide="FALSE", Prefix='"none"',
+         NStylesGood=2, NStylesBad=1, NLexStyles=0),
+    dict(MaxTokens=13, MaxDepth=2, MaxBad=1, MaxTop=2, MaxDtd=0, MaxTrunc=0, Wide="FALSE", Prefix='"dtd"',
+         NStylesGood=1, NStylesBad=1, NLexStyles=0),
+]
+
+
+def mc_cases(wd, tier, out=None, light=False):
     """Run the writer (exhaustive + simulation); returns the path of the REPLAY file.
     Also used by the C03 engine (every C01/C02 input counts for totality)."""
     replay = os.path.join(wd, "docs.replay")
-    runs = []
-    cfgname = "MC_Doc.%d.cfg" % os.getpid()
-    cfg = os.path.join(C.SPEC, cfgname)
-    try:
-        for k, consts in enumerate(EXH[tier]):
-            _mc_cfg(cfg, consts)
-            part = os.path.join(wd, "docs.exh%d.replay" % k)
-            res = C.run_tlc("MC_Doc", cfgname, "docmc%d" % k, to_file=part, workers=8, timeout=2400,
-                            keep_tags=["REPLAY"], xmx="12g")
-            C.tlc_must_pass(res, "MC_Doc exhaustive %d" % k)
-            runs.append(("exhaustive%d" % k, res, part))
-        for k, (consts, num, depth) in enumerate(SIM[tier]):
-            _mc_cfg(cfg, consts)
-            part = os.path.join(wd, "docs.sim%d.replay" % k)
-            res = C.run_tlc("MC_Doc", cfgname, "docsim%d" % k, to_file=part, workers=8, timeout=2400,
-                            keep_tags=["REPLAY"], simulate=num, depth=depth, xmx="12g")
-            if res.returncode != 0:
-                C.log("\n".join(res.raw_tail[-30:]))
-                raise C.ToolError("MC_Doc simulation failed")
-            runs.append(("simulate%d" % k, res, part))
-    finally:
-        if os.path.exists(cfg):
-            os.unlink(cfg)
+    jobs = []
+    for k, consts in enumerate(LIGHT if light else EXH[tier]):
+        jobs.append(("exhaustive%d" % k, consts, None, None))
+    for k, (consts, num, depth) in enumerate([] if light else SIM[tier]):
+        jobs.append(("simulate%d" % k, consts, num, depth))
+
+    def one(job):
+        name, consts, num, depth = job
+        cfg = os.path.join(wd, "MC_Doc.%s.cfg" % name)       # generated cfgs live in the work directory
+        _mc_cfg(cfg, consts)
+        part = os.path.join(wd, "docs.%s.replay" % name)
+        res = C.run_tlc("MC_Doc", cfg, "doc" + name, to_file=part, workers=(4 if tier == "quick" else 8),
+                        timeout=2400, keep_tags=["REPLAY"], xmx=("6g" if tier == "quick" else "12g"),
+                        simulate=num, depth=depth)
+        if num is None:
+            C.tlc_must_pass(res, "MC_Doc " + name)
+        elif res.returncode != 0:
+            C.log("\n".join(res.raw_tail[-30:]))
+            raise C.ToolError("MC_Doc simulation failed")
+        return name, res, part
+
+    if tier == "quick":
+        # the quick tier's four small runs side by side
+        from concurrent.futures import ThreadPoolExecutor
+        with ThreadPoolExecutor(max_workers=4) as ex:
+            runs = list(ex.map(one, jobs))
+    else:
+        runs = [one(j) for j in jobs]
     with open(replay, "w") as f:
         for _, _, part in runs:
             with open(part) as g:
@@ -107,8 +120,7 @@ def _tlc_chunks(prop_mode, open_names, items, wd, tag, chunk=700, par=6):
     """Run Trace_Doc.tla over `items` (list of dicts), split into chunks that are validated by
     parallel single-worker TLC processes.  -> list of (chunk_offset, TlcResult, n_items)"""
     from concurrent.futures import ThreadPoolExecutor
-    cfgname = "Trace_Doc.%s.%d.cfg" % (tag, os.getpid())
-    cfg = os.path.join(C.SPEC, cfgname)
+    cfgname = cfg = os.path.join(wd, "Trace_Doc.%s.cfg" % tag)    # generated cfgs live in the work directory
     _trace_cfg(cfg, prop_mode, open_names)
     jobs = []
     for k in range(0, len(items), chunk):
@@ -154,7 +166,7 @@ def _judge(out, prop, events, wd, tag):
 
 
 RANDOM = {   # doc-record batches: (count, extra args)
-    "quick": [(900, []), (300, ["--cr"]), (8, ["--deep"])],
+    "quick": [(400, []), (150, ["--cr"]), (6, ["--deep"])],
     "thorough": [(20000, []), (4000, ["--cr"]), (40, ["--deep"])],
 }
 
@@ -185,7 +197,7 @@ def random_cases(wd, tier, out=None):
     return replay
 
 
-TEXTEDITS = {"quick": 1200, "thorough": 30000}
+TEXTEDITS = {"quick": 500, "thorough": 30000}
 
 
 def text_cases(wd, tier, base_replay, out=None):
@@ -249,6 +261,28 @@ def _vacuity_guard(out, prop, events, rel):
             raise C.ToolError("vacuity guard: never exercised: %s" % missing)
 
 
+def replay_cases(replay, obs):
+    """doc-replay under the harness watchdog: a case on which the code under test hangs or takes the
+    process down becomes a `crash` event (judged like any other) and the run continues after it."""
+    done = 0
+    crashes = 0
+    with open(obs, "w") as f:
+        while True:
+            part = "%s.part%d" % (obs, crashes)
+            _, crashed = C.run_harness_watched(["doc-replay", "--in", replay, "--out", part, "--skip", str(done)],
+                                               part, timeout=7200)
+            with open(part) as g:
+                for line in g:
+                    f.write(line)
+                    done += 1
+            os.unlink(part)
+            if not crashed:
+                return crashes
+            crashes += 1
+            if crashes > 20:
+                raise C.ToolError("doc-replay: more than 20 inputs crash or hang the code under test")
+
+
 def _relevant(prop, e):
     if prop == "C01":
         return bool(e["wf"])
@@ -286,7 +320,7 @@ def run(prop, tier):
                 for line in g:
                     f.write(line)
         obs = os.path.join(wd, "docs.obs")
-        C.run_harness(["doc-replay", "--in", replay, "--out", obs])
+        out.extra["inputs_that_crashed_or_hung_the_parser"] = replay_cases(replay, obs)
         t3 = time.time()
         events = C.read_ndjson(obs)
         rel = [e for e in events if _relevant(prop, e)]
@@ -354,7 +388,7 @@ def replay(prop, path):
                 case["src"] = ev["src"]
             f.write(json.dumps(case) + "\n")
         obs = os.path.join(wd, "r.obs")
-        C.run_harness(["doc-replay", "--in", inp, "--out", obs])
+        replay_cases(inp, obs)
         events = C.read_ndjson(obs)
         _judge(out, prop, events, wd, "docrv")
         out.traces = len(events)
